@@ -178,6 +178,15 @@ class Tracer:
                                          detail=f"call of {show(c_.fn)[:80]}"))
                 continue
             callee, cenv, _ = r
+            if cenv is None and c_.fn[0] == "func":
+                # a nested def handed down as a callback is recorded by its name once it is called: its defining environment is
+                # the one carried by the closure value among this function's arguments
+                for v_ in args.values():
+                    if isinstance(v_, tuple) and len(v_) == 3 and v_[0] == "closure" and v_[1] == c_.fn[1]:
+                        cenv = self.ctx.ev._closures.get(v_[2]) if hasattr(self.ctx.ev, "_closures") else None
+                        if cenv is None:
+                            from ..terms import _FuncEval
+                            cenv = _FuncEval._closures.get(v_[2])
             # a call whose result is what a store stores is the *scan* of that store: examined by the rule, not followed here
             res = strip(c_.result) if getattr(c_, "result", None) is not None else None
             is_scan = res is not None and res in stored_terms
